@@ -189,6 +189,14 @@ def main(run):
     texts.append(("resubmitted", BASE))
     cases.append({"id": len(cases), "base": BASE, "mid": MID, "text": BASE})
     mid_rules = {"b": (7, "dm"), "z": (1, "dm")}
+    # texts submitted to a state that a REMOVAL produced (rules before, between and after the survivors removed; absent names):
+    # the incremental entry points must merge into the denoted set minus the removed names, the full ones replace it
+    rm_texts = [rule_text("b", 0, "dr", "return 2"), rule_text("q", -2, "dr", "return 2"), rule_text("q", 8, "dr"), rule_text("b", 0, "dr") + "\n" + rule_text("q", -2, "dr"),
+                rule_text("b", 3, "dr") + "\n" + rule_text("n", 1, "dr"), rule_text("a", 5, "dr"), rule_text("n", -9, "dr")]
+    for rm in (["a"], ["b"], ["q"], ["a", "b"], ["ghost"], ["a", "ghost", "q"]):
+        for t in rm_texts + ([valid_text(rng)[0] for _ in range(2 if run.tier == "quick" else 12)]):
+            texts.append(("after-removal", t))
+            cases.append({"id": len(cases), "base": BASE, "rm": rm, "text": t})
     run.log("submitting %d texts to the five entry points" % len(cases))
     shards = [cases[i::NCPU] for i in range(NCPU)]
 
@@ -207,6 +215,8 @@ def main(run):
     stream_stats, nontrivial = {}, set()
     for (kind, text), o in zip(texts, obs):
         base_rules = {} if kind.endswith("@empty") else (dict(base_rules_full, **mid_rules) if kind == "resubmitted" else base_rules_full)
+        if cases[o["id"]].get("rm"):
+            base_rules = {n: v for n, v in base_rules.items() if n not in cases[o["id"]]["rm"]}
         kind = kind.replace("@empty", "")
         st = stream_stats.setdefault(kind + ("" if base_rules else " (from the empty state)"), {"texts": 0, "accepted": 0})
         st["texts"] += 1
@@ -291,7 +301,7 @@ def main(run):
         sig = {"kind": "compile-text", "symptom": code}
         if code == "disagree":
             sig["accepting"] = sorted(k for k, v in detail.items() if v)
-        run.report(sig, {"base": cases[cid]["base"], "text": texts[cid][1], "stream": texts[cid][0], "detail": detail, "observation": obs[cid]},
+        run.report(sig, {"base": cases[cid]["base"], "mid": cases[cid].get("mid", ""), "rm": cases[cid].get("rm", []), "text": texts[cid][1], "stream": texts[cid][0], "detail": detail, "observation": obs[cid]},
                    "C10: %s for the text %r: %s" % (code, texts[cid][1][:160], str(detail)[:300]))
     if reader_problems and not run.violations:
         # the reader model no longer decides the language the builder accepts: by itself that is no text on which the entry
@@ -309,7 +319,7 @@ def main(run):
     cov = run.coverage
     cov["discharged"] += (1 if ok and not bad else 0) + (0 if problems or reader_problems else 1)
     cov.update({"evaluations": len(texts) * 5, "distinct_nontrivial": len(nontrivial),
-                "rule": "truncations first: token-boundary prefixes and suffixes of a valid two-rule text and 20 keyword-only / cut-off headers (where the parser's error recovery has nothing left to consume); then three streams: valid multi-rule texts over 11 body shapes (~38%), token-level mutations of valid texts — delete / replace / insert / swap of 1-3 tokens over a 70-token vocabulary with unknown characters, keyword case variants, unterminated strings and comments, huge literals (~32%), character-level edits of valid texts — delete / insert / replace 1-3 characters over letters, digits, dots, quotes, operators, brackets and white space, which exercise longest-match tokenisation (~15%), arbitrary bytes incl. NUL and non-ASCII (~15%), plus 16 fixed texts; every text is submitted to all five entry points from a known 3-rule state, and every third text (and all fixed texts) also from the EMPTY state (fresh builder / cleared pool); "
+                "rule": "truncations first: token-boundary prefixes and suffixes of a valid two-rule text and 20 keyword-only / cut-off headers (where the parser's error recovery has nothing left to consume); then three streams: valid multi-rule texts over 11 body shapes (~38%), token-level mutations of valid texts — delete / replace / insert / swap of 1-3 tokens over a 70-token vocabulary with unknown characters, keyword case variants, unterminated strings and comments, huge literals (~32%), character-level edits of valid texts — delete / insert / replace 1-3 characters over letters, digits, dots, quotes, operators, brackets and white space, which exercise longest-match tokenisation (~15%), arbitrary bytes incl. NUL and non-ASCII (~15%), plus 16 fixed texts; every text is submitted to all five entry points from a known 3-rule state, and every third text (and all fixed texts) also from the EMPTY state (fresh builder / cleared pool); 7 redefining / adding texts and some valid ones are also submitted to the states six REMOVALS leave (first, middle, last rule, two rules, an absent name, a mix); "
                         "checked: returned normally (no panic / crash), pairwise accept/reject agreement, the same compiled tree (positions included) for every rule of an accepted text through every entry point, the full build's verdict and installed names / saliences / descriptions equal to those the reader model (Lang/Reader.v, evaluated inside Coq on the text) computes, exact state equality on reject, on accept the state equals the replacement / merge of the rules the text defines, sortedness and index consistency afterwards; "
                         "distinct non-trivial = distinct texts that are valid with >= 2 rules, or mutated, or on which the entry points disagree",
                 "reader_model": {"texts_decided_inside_coq": len(rcs) - runsup, "outside_model_domain": runsup, "disagreements": len(reader_problems)},
@@ -323,7 +333,7 @@ def main(run):
 
 def replay(run, data):
     build_harness()
-    st, out, err = run_harness_child("compile", [{"id": 0, "base": data["replay"]["base"], "text": data["replay"]["text"]}], timeout=60)
+    st, out, err = run_harness_child("compile", [{"id": 0, "base": data["replay"]["base"], "mid": data["replay"].get("mid", ""), "rm": data["replay"].get("rm", []), "text": data["replay"]["text"]}], timeout=60)
     print(st, json.dumps(out)[:1500] if out else err)
     if st != "ok":
         return 1
